@@ -181,6 +181,27 @@ def eval_generate(case, obj=None):
             out.append((f"C13|generate|expire_time:{trange(t)}", f"expire_time {expire!r} != (counter+1)*period = {(counter + 1) * period}"))
     if as_tuple != (token, expire):
         out.append(("C13|generate|as_tuple", f"tuple(TotpToken) = {as_tuple!r}, expected (token, expire_time) = {(token, expire)!r}"))
+    if isinstance(counter, int) and not out:
+        # the reported validity interval is [start_time, expire_time): `remaining` / `valid` read against the class clock
+        lo, hi = counter * period, (counter + 1) * period
+        try:
+            _CLOCK[0] = -12345.5
+            if obj.now() == -12345.5:
+                for clock, wrem in ((lo, period), (hi - 1, 1), (hi - 0.5, 0.5), (hi, 0), (hi + 1, 0), (hi + period, 0)):
+                    if clock < 0:
+                        continue
+                    _CLOCK[0] = clock
+                    rem, valid = tok.remaining, tok.valid
+                    if rem != wrem or valid is not (wrem > 0):
+                        where = "start" if clock == lo else "end" if clock == hi else "inside" if clock < hi else "after"
+                        out.append((f"C13|generate|validity_at_{where}",
+                                    f"token of the interval [{lo}, {hi}) (period {period}) read at clock {clock}: remaining = {rem!r}, valid = {valid!r}; "
+                                    f"expected remaining {wrem}, valid {wrem > 0}"))
+                        break
+        except Exception as e:  # noqa: BLE001
+            out.append((f"C13|generate|validity:raises:{type(e).__name__}", f"TotpToken.remaining / .valid raised {e!r}"))
+        finally:
+            _CLOCK[0] = PINNED
     return out
 
 
